@@ -88,7 +88,7 @@ def streams(rng, tier, ctx):
             if i % 7 == 3:
                 # the send-rate ceiling is min(own max_send_rate, the max_receive_rate field of the peer's handshake frame):
                 # a hostile peer may put anything there
-                cfg["bwA"] = cfg["bwB"] = r.pick([0, 0, 1, 22, 100])
+                cfg["bwA"] = cfg["bwB"] = r.pick([0, 0, 1, 22, 100, 2**31, 2**32 - 1, 2**32 - 1])
             sim = Sim(r, cfg, inter=it)
             net = Net(loss=r.pick([0, 100]), latency=r.pick([0, 1_000_000]))
             dt = r.pick([0, 250_000, 1_000_000, 16_000_000])
